@@ -250,7 +250,7 @@ def generate(seed, prop):
     rng = rng_for(seed)
     fault_rate = rng.choice([0.0, 0.0, 0.2, 0.4])
     w = {"construct": 4.0, "mutate": 3.0, "assign": 2.0, "save": 3.0, "load_new": 2.5, "load_into": 1.0,
-         "dispatch_read": 2.5, "fresh_defaults": 1.0}
+         "dispatch_read": 2.5, "fresh_defaults": 1.0, "clone": 1.2}
     for k in list(w):
         if rng.random() < 0.12 and k not in ("construct", "save"):
             w[k] = 0.0
@@ -275,6 +275,14 @@ def generate(seed, prop):
         elif name == "assign":
             attr = rng.choice(ASSIGNABLE)
             ops.append({"op": name, "i": rng.randrange(8), "attr": attr, "value": draw_value_for(rng, attr)})
+        elif name == "clone":
+            # a second object obtained by copying (a template kept for the next site; a settings object sent to a worker)
+            ops.append({"op": name, "i": rng.randrange(8), "how": rng.choice(["deepcopy", "deepcopy", "pickle"])})
+            if rng.random() < 0.6:                 # ... one of the two is then edited in place
+                ops.append({"op": "mutate", "i": rng.choice([-1, ops[-1]["i"]]),
+                            "path": rng.choice([["smoothing", "center_frequencies_in_hz", 0], ["azimuths_in_degrees", 0],
+                                                ["smoothing", "center_frequencies_in_hz", -1], rng.choice(MUTABLE_PATHS)]),
+                            "value": rng.choice([0.35, 0.77, 3.0, 7.5, 55.0])})
         elif name == "save":
             op = {"op": name, "i": rng.randrange(8), "path": "/simfs/s/" + rng.choice(["a", "b", "c"]) + ".json",
                   "via": rng.choice(["method", "function"])}
@@ -469,6 +477,22 @@ def execute(triple, prop):
                         for k, v in kwargs.items():
                             ctx.check(canon(norm(v)) == canon(c.get(k)), "constructor_lost_argument",
                                       f"{op['cls']}({k}=...) stored {str(c.get(k))[:60]}", key={"cls": op["cls"], "attr": k})
+                elif name == "clone" and st.objs:
+                    import pickle
+                    i = op["i"] % len(st.objs)
+                    src = st.objs[i]
+                    dup = copy.deepcopy(src) if op["how"] == "deepcopy" else pickle.loads(pickle.dumps(src))
+                    ctx.check(canon(content(dup)) == canon(before[i]), "copy_differs",
+                              lambda: f"{op['how']} of a {type(src).__name__} differs from the object: "
+                                      f"{first_diff(before[i], content(dup))}", key={"how": op["how"], "cls": type(src).__name__})
+                    st.objs.append(dup)
+                    if len(st.objs) > 6:
+                        st.objs.pop(0)
+                        before = before[1:]
+                    target = len(st.objs) - 1
+                    sigx = "clone:" + op["how"]
+                    ctx.probe("settings_object_copied")
+                    ctx.state_changes += 1
                 elif name in ("mutate", "assign") and st.objs:
                     i = op["i"] % len(st.objs)
                     o = st.objs[i]
